@@ -20,6 +20,16 @@ pub struct Snip {
 /// overload signatures, abstract members: functions and methods **without a body**), unusual class members, modern
 /// operators, module forms.  One program each; they are also mixed into recombined programs.
 pub const ODDITIES: &[&str] = &[
+  "class ñandu_bird {}\ninterface ünit_test {}\nenum π_kind { a_b, ß_c }",
+  "type é_t = number;\nnamespace ß_ns { export const q_r = 1; }\nfunction ǆ_f(ñ_p: number) { return ñ_p; }",
+  "const 𝒜_b = 1, ｆ_g = 2;\nclass Ünï_Code { ñ_m() {} static é_s = 1; #π_p = 2; }",
+  "declare var dv1: number;",
+  "export declare var dv2: string, dv3: number;",
+  "declare let dl1: number;\ndeclare const dc1: 1;",
+  "declare function df1(): void;\ndeclare class Dc2 { m(): void }",
+  "declare enum De1 { A }\nexport declare namespace Dn1 { var q: number; }",
+  "export default abstract class Da1 { abstract m(): void }",
+  "declare module \"amb\" { var inner: number; export function f(): void; }",
   "/** @jsxRuntime bogus */\nconst a = 1;",
   "/* @jsx a..b */\nconst a = <div/>;",
   "/*\n * @jsxFrag class\n */\nconst a = <></>;",
@@ -167,6 +177,36 @@ fn payload(rng: &mut Rng, must: &[&str]) -> String {
   v.join("")
 }
 
+/// words the non-ASCII respelling leaves alone: keywords, contextual keywords and the globals rules look for
+const NOT_RENAMED: &[&str] = &[
+  "do", "if", "in", "for", "let", "new", "try", "var", "case", "else", "enum", "null", "this", "true", "void", "with", "break", "catch", "class", "const", "false", "super",
+  "throw", "while", "yield", "delete", "export", "import", "public", "return", "static", "switch", "typeof", "default", "extends", "finally", "package", "private",
+  "continue", "debugger", "function", "interface", "protected", "implements", "instanceof", "of", "as", "is", "any", "get", "set", "type", "from", "async", "await", "never",
+  "number", "object", "string", "symbol", "unknown", "boolean", "declare", "keyof", "infer", "unique", "readonly", "abstract", "namespace", "module", "global", "require",
+  "asserts", "satisfies", "out", "using", "accessor", "override", "bigint", "undefined", "constructor", "NaN", "Infinity", "arguments", "eval",
+];
+
+fn replace_ident(s: &str, from: &str, to: &str) -> String {
+  let is_id = |c: char| c.is_alphanumeric() || c == '_' || c == '$';
+  let mut out = String::new();
+  let mut i = 0;
+  while i < s.len() {
+    if s[i..].starts_with(from) {
+      let before = s[..i].chars().next_back().map_or(false, is_id);
+      let after = s[i + from.len()..].chars().next().map_or(false, is_id);
+      if !before && !after {
+        out.push_str(to);
+        i += from.len();
+        continue;
+      }
+    }
+    let c = s[i..].chars().next().unwrap();
+    out.push(c);
+    i += c.len_utf8();
+  }
+  out
+}
+
 /// programs that trigger the fix-providing rules, with hostile payloads in the text the fix has to re-emit
 /// import / export programs for verbatim-module-syntax: every import form x how each binding is used (as a value, in
 /// a type, in `typeof`, not at all) x how it is exported again (`export { x }`, renamed, `export type`, default, not)
@@ -220,6 +260,15 @@ pub fn gen_fix_program(rng: &mut Rng) -> (String, String) {
   if rng.chance(1, 6) {
     return ("verbatim-module-syntax".into(), gen_verbatim_program(rng));
   }
+  if rng.chance(1, 10) {
+    // a line directive above the first statement suppresses one finding; the fix of another one must leave it there
+    let head = ["", "// header\n", "#!/usr/bin/env deno\n", "/* licence */\n\n"][rng.below(4)];
+    return match rng.below(3) {
+      0 => ("no-node-globals".into(), format!("{}// deno-lint-ignore no-node-globals\nconst a = Buffer;\nconst b = setImmediate;\n", head)),
+      1 => ("no-process-global".into(), format!("{}// deno-lint-ignore no-process-global\nconst a = process.env;\nprocess.exit(1);\n", head)),
+      _ => ("no-node-globals".into(), format!("{}// deno-lint-ignore no-node-globals no-process-global\nf(Buffer, process);\nclearImmediate(process.pid);\n", head)),
+    };
+  }
   match rng.below(12) {
     0 | 1 | 2 => ("jsx-no-unescaped-entities".into(), format!("const a = <div>{}</div>;", payload(rng, &[">", "}"]).replace('"', "q"))),
     3 | 4 => ("jsx-curly-braces".into(), format!("const a = <div foo={{\"{}\"}} />;", payload(rng, &[]).replace('\\', "\\\\").replace('"', "\\\""))),
@@ -241,22 +290,27 @@ pub fn gen_fix_program(rng: &mut Rng) -> (String, String) {
     9 => ("no-window-prefix".into(), format!("window.{}();", ["fetch", "alert", "addEventListener"][rng.below(3)])),
     10 => {
       // with and without imports before the use; what follows the last import on its line may be a construct that
-      // continues on the next line (block comment, template, a statement broken over lines)
-      let use_ = format!("const e = process.{}; process.exit(1);", ["env.X", "argv", "cwd()"][rng.below(3)]);
+      // continues on the next line (block comment, template, a statement broken over lines); for each of the
+      // import-adding rules
+      let (rule, use_, g) = match rng.below(3) {
+        0 => ("no-process-global", format!("const e = process.{}; process.exit(1);", ["env.X", "argv", "cwd()"][rng.below(3)]), "process.argv"),
+        1 => ("no-node-globals", "const e = Buffer.from(\"x\"); f(Buffer);".to_string(), "Buffer"),
+        _ => ("no-node-globals", "setImmediate(() => {}); clearImmediate(1);".to_string(), "setImmediate"),
+      };
       let src = match rng.below(11) {
         0 => use_,
         1 => format!("import a from \"b\";\n{}", use_),
         2 => format!("import a from \"b\"; /* the entry point\n of the tool */\n{}", use_),
-        3 => format!("import a from \"b\"; const usage = `\n ${{a}} ${{process.argv[1]}}\n`;"),
-        4 => format!("import a from \"b\"; // trailing\nimport c from \"d\"; f(\n  process.argv,\n);"),
+        3 => format!("import a from \"b\"; const usage = `\n ${{a}} ${{{}}}\n`;", g),
+        4 => format!("import a from \"b\"; // trailing\nimport c from \"d\"; f(\n  {},\n);", g),
         5 => format!("import a from \"b\"; const s = \"x\\\n y\"; {}", use_),
         8 => format!("{}\nimport late from \"./late.ts\";\nf(late);", use_),
         9 => format!("const b = Buffer.from(\"x\");\n{}\nimport late from \"./late.ts\";\nf(late, b);", use_),
         6 => format!("import z from \"z\";\ndeclare module \"x\" {{ import y from \"y\"; }}\n{}", use_),
         7 => format!("declare module \"x\" {{ import y from \"y\"; }}\n{}", use_),
-        _ => format!("import {{\n  a,\n}} from \"b\"; let v =\n  process.env;"),
+        _ => format!("import {{\n  a,\n}} from \"b\"; let v =\n  {};", g),
       };
-      ("no-process-global".into(), src)
+      (rule.into(), src)
     }
     _ => ("no-node-globals".into(), format!("const b = {}; {}", ["Buffer.from(\"x\")", "global.y", "setImmediate(() => {})"][rng.below(3)], ["clearImmediate(1);", "Buffer;", ""][rng.below(3)])),
   }
@@ -413,6 +467,41 @@ pub fn run(args: &Args) {
       // JSX reflow: closing tags and expression containers on lines of their own (line breaks inside JSX text)
       out.count("shape=jsx-reflow");
       (rule, src.replace("></", ">\n    </").replace("}</", "}\n  </").replace(">{", ">\n  {"))
+    } else if ["var ", "let ", "const ", "function ", "class ", "enum ", "namespace ", "async function "].iter().any(|k| src.trim_start().starts_with(k)) && crng.chance(1, 5) {
+      // the same declaration behind modifiers: the node then starts at the modifier, not at its own keyword
+      out.count("shape=declaration-modifier-prefix");
+      let pre = ["declare ", "export ", "export declare ", "export default ", "/* c */ declare ", "declare\n"][crng.below(6)];
+      (rule, format!("{}{}", pre, src.trim_start()))
+    } else if crng.chance(1, 8) || (want("C01") && crng.chance(1, 6)) {
+      // one identifier of the program respelled with non-ASCII letters (lower-case, upper-case, caseless, astral), with
+      // and without an inner underscore: rules that cut names up to build messages and suggestions index them by bytes
+      let words: Vec<&str> = src
+        .split(|c: char| !(c.is_ascii_alphanumeric() || c == '_' || c == '$'))
+        .filter(|w| w.len() >= 2 && w.chars().next().map_or(false, |c| c.is_ascii_alphabetic()) && !NOT_RENAMED.contains(w))
+        .collect();
+      if words.is_empty() {
+        (rule, src)
+      } else {
+        // a declared name two times out of three (the word after a declaration keyword)
+        let declared: Vec<&str> = words
+          .iter()
+          .copied()
+          .filter(|w| ["class ", "interface ", "type ", "enum ", "namespace ", "module ", "function ", "const ", "let ", "var "].iter().any(|k| src.contains(&format!("{}{}", k, w))))
+          .collect();
+        let w = if !declared.is_empty() && crng.chance(2, 3) { declared[crng.below(declared.len())].to_string() } else { words[crng.below(words.len())].to_string() };
+        let new = match crng.below(8) {
+          0 => format!("ñ{}", w),
+          1 => format!("π_{}", w),
+          2 => format!("Ü{}_é", w),
+          3 => format!("日本_{}", w),
+          4 => format!("{}_ß", w),
+          5 => format!("𝒜{}", w),
+          6 => format!("ǆ_{}_x", w),
+          _ => format!("é{}", w.to_ascii_lowercase()),
+        };
+        out.count("shape=non-ascii-identifier");
+        (rule, replace_ident(&src, &w, &new))
+      }
     } else if crng.chance(1, 10) {
       // a leading block comment with compiler pragmas, well-formed or not: they are read before any rule runs
       out.count("shape=leading-pragma");
@@ -749,7 +838,7 @@ pub fn run(args: &Args) {
       // under the media type the program was linted with, and under the JavaScript media types too when it parses
       // there (fixes must not introduce syntax the file's language does not have)
       let mut runs: Vec<(String, Vec<D>)> = vec![(ext.to_string(), ds.clone())];
-      for e2 in ["js", "jsx", "mjs"] {
+      for e2 in ["js", "jsx", "mjs", "cjs"] {
         if e2 != ext && case_no % 3 == 0 {
           if let Outcome::Ok(d2) = lint(&all, &src, e2) {
             if d2.iter().any(|d| !d.fixes.is_empty()) {
